@@ -151,6 +151,12 @@ def _hash_go(dirs):
     return h.hexdigest()[:20]
 
 
+# tasks implemented by a separate generator command (stdout = the generated file)
+EXTERNAL_TASKS = {
+    'enums': dict(cmd='c12tables', dirs=['.'], out='SerialTables.v'),
+}
+
+
 def translate(tasks=None):
     """Regenerate coq/gen/*.v from REPO's current source (the translator).
     Output of each task is cached by the hash of the Go files it reads."""
@@ -158,6 +164,8 @@ def translate(tasks=None):
     if rc != 0:
         return rc, 'translator build failed:\n' + out, dt, []
     td = _task_dirs()
+    for name, ext in EXTERNAL_TASKS.items():
+        td[name] = ext['dirs']
     if tasks is None:
         tasks = sorted(td)
     changed = []
@@ -171,7 +179,16 @@ def translate(tasks=None):
             tmp = cdir + f'.tmp{os.getpid()}'
             shutil.rmtree(tmp, ignore_errors=True)
             os.makedirs(tmp)
-            rc, out, _ = sh([f'{BIN}/translate', '-repo', REPO, '-out', tmp, '-only', task], timeout=1800, env=GOENV)
+            if task in EXTERNAL_TASKS:
+                ext = EXTERNAL_TASKS[task]
+                rc, out, _ = go_build(ext['cmd'], tags='')
+                if rc == 0:
+                    r = subprocess.run([f'{BIN}/{ext["cmd"]}', '-repo', REPO], cwd=REPO, env=GOENV, capture_output=True, text=True, timeout=1800)
+                    rc, out = r.returncode, r.stderr
+                    if rc == 0:
+                        open(f'{tmp}/{ext["out"]}', 'w').write(r.stdout)
+            else:
+                rc, out, _ = sh([f'{BIN}/translate', '-repo', REPO, '-out', tmp, '-only', task], timeout=1800, env=GOENV)
             if rc != 0:
                 return rc, out, time.time() - t0, changed
             os.rename(tmp, cdir)
